@@ -623,6 +623,77 @@ theorem bounds_all {P : Bytes → Prop} {K : Nat} (hc : Closed P) (hK : 24 ≤ K
           have c1 := readBytes_len (Lexer.new data).read8.2 3
           simp only [size6, depth6, nodeC]; omega
 
+/-! ### the one-pass length of `lenNest6` is the length of the encoding -/
+
+theorem write16_length (ip : IP) : (write16 ip).length = 16 := by
+  unfold write16 ipTo16
+  cases ip with
+  | none => simp
+  | some b =>
+    simp only [Option.bind]
+    unfold to16
+    split
+    · rename_i h; simp [h]
+    · split
+      · rename_i h; simp [h]
+      · simp
+
+theorem encDur_length (d : Dur) : (encDur d).length = 4 := by simp [encDur]
+
+mutual
+theorem lenNestOpt_fst : ∀ o : Opt6, (lenNestOpt o).1 = (encOpt o).length
+  | .iana i a b os => by
+    simp only [lenNestOpt, encOpt, lenNestOpts_fst os, List.length_append, copyInto_length, encDur_length]
+  | .iata i os => by
+    simp only [lenNestOpt, encOpt, lenNestOpts_fst os, List.length_append, copyInto_length]
+  | .iaaddr ip a b os => by
+    simp only [lenNestOpt, encOpt, lenNestOpts_fst os, List.length_append, write16_length, encDur_length]
+  | .iapd i a b os => by
+    simp only [lenNestOpt, encOpt, lenNestOpts_fst os, List.length_append, copyInto_length, encDur_length]
+  | .iaprefix a b p os => by
+    simp only [lenNestOpt, encOpt, lenNestOpts_fst os, List.length_append, encDur_length]
+    cases p with
+    | none => simp
+    | some q => obtain ⟨n, ip⟩ := q; simp [write16_length]
+  | .fourRD os => by simp only [lenNestOpt, encOpt, lenNestOpts_fst os]
+  | .relayMsg m => by simp only [lenNestOpt, encOpt, lenNest6_fst m]
+  | .clientID _ => by simp only [lenNestOpt]
+  | .serverID _ => by simp only [lenNestOpt]
+  | .oro _ => by simp only [lenNestOpt]
+  | .elapsed _ => by simp only [lenNestOpt]
+  | .status _ _ => by simp only [lenNestOpt]
+  | .userClass _ => by simp only [lenNestOpt]
+  | .vendorClass _ _ => by simp only [lenNestOpt]
+  | .vendorOpts _ _ => by simp only [lenNestOpt]
+  | .interfaceID _ => by simp only [lenNestOpt]
+  | .dns _ => by simp only [lenNestOpt]
+  | .domainSearch _ => by simp only [lenNestOpt]
+  | .infoRefresh _ => by simp only [lenNestOpt]
+  | .remoteID _ _ => by simp only [lenNestOpt]
+  | .fqdn _ _ => by simp only [lenNestOpt]
+  | .ntp _ => by simp only [lenNestOpt]
+  | .bootfileURL _ => by simp only [lenNestOpt]
+  | .bootfileParam _ => by simp only [lenNestOpt]
+  | .archType _ => by simp only [lenNestOpt]
+  | .nii _ _ _ => by simp only [lenNestOpt]
+  | .clientLLA _ _ => by simp only [lenNestOpt]
+  | .dhcpv4Msg _ => by simp only [lenNestOpt]
+  | .dhcp4o6Server _ => by simp only [lenNestOpt]
+  | .fourRDMapRule _ _ _ _ _ _ => by simp only [lenNestOpt]
+  | .fourRDNonMapRule _ _ _ => by simp only [lenNestOpt]
+  | .relayPort _ => by simp only [lenNestOpt]
+  | .generic _ _ => by simp only [lenNestOpt]
+theorem lenNestOpts_fst : ∀ os : List Opt6, (lenNestOpts os).1 = (encOpts os).length
+  | [] => by simp [lenNestOpts, encOpts]
+  | o :: os => by
+    simp only [lenNestOpts, encOpts, tlv, List.length_append, be16_length, lenNestOpt_fst o, lenNestOpts_fst os]
+theorem lenNest6_fst : ∀ m : Msg6, (lenNest6 m).1 = (encMsg m).length
+  | .msg t x os => by
+    simp only [lenNest6, encMsg, List.length_cons, List.length_append, copyInto_length, lenNestOpts_fst os]; omega
+  | .relay t h l p os => by
+    simp only [lenNest6, encMsg, List.length_cons, List.length_append, write16_length, lenNestOpts_fst os]; omega
+end
+
 /-! ### instances used by Props/C09 -/
 
 theorem labelBound_gen : LabelBound (fun _ => True) 144 :=
